@@ -70,6 +70,8 @@ R = op("restart")
 def case(ops, probe=None):
     ents = set()
     for o in ops:
+        if o["op"] == "addjob":
+            o.setdefault("trig", -1)
         for e in o.get("es", []):
             ents.add(e[0])
             if e[2] >= 0:
@@ -84,6 +86,8 @@ def witness_cases():
               op("delacl", c="b"), R, op("setacl", c="b", acl=[2])]),
         # F14b: no clients.json => acls.json is not read
         case([op("setacl", c="a", acl=[0, 5]), R]),
+        # ACLs of a subject that never registers (an external token provider's subject) next to a registered client
+        case([op("reg", c="a"), op("setacl", c="a", acl=[0]), op("setacl", c="b", acl=[6, 3]), R, op("setacl", c="c", acl=[8]), R]),
         # F14c: live provider map keyed by lower-cased name, stored objects by raw name
         case([op("addprov", name="Pa", user="u1"), op("delprov", name="pa"), R]),
         case([op("addprov", name="pa", user="u1"), op("addprov", name="Pa", user="u2"), R, op("delprov", name="pa"), R]),
@@ -94,6 +98,20 @@ def witness_cases():
         case([op("create", ds=1), op("create", ds=2), op("w", ds=1, es=[[2, 40, 3, 0]]), op("w", ds=1, es=[[3, 17, 1, 1]]), R,
               op("addjob", job=0, src=1, sink=2, paused=False, delay=0), op("run", job=0), R,
               op("w", ds=1, es=[[3, 80, 7, 0]]), R, op("run", job=0), R, op("w", ds=2, es=[[3, 17, 1, 1], [4, 18, 3, 0]]), R]),
+        # onchange-only jobs on the real event bus: a write to the monitored dataset runs the job; a deleted or paused job
+        # must not run any more - with or without a restart in between; chains (the sink of one job is monitored by the next)
+        case([op("create", ds=1), op("create", ds=2), op("create", ds=3),
+              op("addjob", job=0, src=1, sink=2, paused=False, delay=0, trig=1),
+              op("addjob", job=1, src=2, sink=3, paused=False, delay=0, trig=2),
+              op("w", ds=1, es=[[1, 10, -1, 0]]), R, op("deljob", job=0), op("w", ds=1, es=[[2, 11, 1, 0]]), R,
+              op("w", ds=2, es=[[3, 12, -1, 0]]), op("pause", job=1), R, op("w", ds=2, es=[[4, 13, -1, 0]]),
+              op("resume", job=1), R, op("w", ds=2, es=[[5, 14, -1, 0]]), R]),
+        case([op("create", ds=1), op("create", ds=2), op("addjob", job=2, src=1, sink=2, paused=False, delay=0, trig=1),
+              op("deljob", job=2), op("w", ds=1, es=[[1, 10, -1, 0]]), R, op("w", ds=1, es=[[2, 10, -1, 0]]),
+              op("addjob", job=2, src=1, sink=2, paused=True, delay=0, trig=1), op("w", ds=1, es=[[3, 10, -1, 0]]), R]),
+        # one batch into core.Dataset with the meta entities of several datasets changing their public namespaces
+        case([op("create", ds=1), op("create", ds=2, pub=[0]), op("create", ds=3), op("pubnsm", sets=[[1, 1], [2, 2, 0], [3]]), R,
+              op("pubnsm", sets=[[3, 0], [1]]), R, op("pubnsm", sets=[[2, 1], [4, 0]]), R]),
         # F14d: full-sync state is memory only
         case([op("create", ds=1), op("w", ds=1, es=[[1, 10, -1, 0], [2, 11, 1, 0]]),
               op("fsstart", ds=1, fs="x", es=[[1, 10, -1, 0]]), R, op("fsend", ds=1, fs="x", es=[])]),
@@ -133,7 +151,7 @@ def gen_history(rng, n, mode):
     have_job = set()
     have_acl = set()
     fs_open = {}
-    weights = [("create", 6), ("w", 9), ("delete", 2), ("rename", 3), ("pubns", 2), ("fs", 4),
+    weights = [("create", 6), ("w", 9), ("delete", 2), ("rename", 3), ("pubns", 2), ("pubnsm", 2), ("fs", 4),
                ("addjob", 4), ("pause", 2), ("resume", 2), ("deljob", 1), ("run", 5),
                ("reg", 3), ("unreg", 3), ("setacl", 4), ("delacl", 2), ("addprov", 3), ("delprov", 2)]
     total = sum(w for _, w in weights)
@@ -203,6 +221,10 @@ def gen_history(rng, n, mode):
         elif k == "pubns":
             d = some_px() if (have_px and rng.chance(1, 3)) else some_ds()
             ops.append(op("pubns", ds=d, pub=rng.choice([[], [0], [1], [0, 2]])))
+        elif k == "pubnsm":
+            cand = sorted(have_ds) if len(have_ds) >= 2 else [1, 2, 3, 4]
+            rng.shuffle(cand)
+            ops.append(op("pubnsm", sets=[[d] + rng.choice([[], [0], [1], [0, 2], [2]]) for d in cand[:rng.range(2, 3)]]))
         elif k == "fs":
             d = some_ds()
             cur = fs_open.get(d)
@@ -217,7 +239,11 @@ def gen_history(rng, n, mode):
             j = rng.range(0, 2)
             s = some_ds()
             t = rng.choice([x for x in range(1, 5) if x != s])
-            ops.append(op("addjob", job=j, src=s, sink=t, paused=rng.chance(1, 3), delay=rng.choice([0, 0, 5, 30])))
+            if rng.chance(2, 5):
+                # an onchange-only job (no error handlers: verify does not reach them for an onchange trigger)
+                ops.append(op("addjob", job=j, src=s, sink=t, paused=rng.chance(1, 4), delay=0, trig=rng.choice([s, s, s, t, rng.range(1, 4)])))
+            else:
+                ops.append(op("addjob", job=j, src=s, sink=t, paused=rng.chance(1, 3), delay=rng.choice([0, 0, 5, 30]), trig=-1))
             have_job.add(j)
         elif k in ("pause", "resume", "deljob", "run"):
             j = rng.choice(sorted(have_job)) if (have_job and rng.chance(7, 8)) else rng.range(0, 2)
@@ -400,13 +426,16 @@ def op_term(o):
         return "HDm (DRename %s %s)" % (z(o["ds"]), z(o["to"]))
     if k == "pubns":
         return "HDm (DPubns %s %s)" % (z(o["ds"]), zl(o.get("pub") or []))
+    if k == "pubnsm":
+        return "HDm (DPubnsM %s)" % vlib.coq_list(["(%s, %s)" % (z(x[0]), zl(x[1:])) for x in o["sets"]])
     if k in ("w", "fsstart", "fsw", "fsend"):
         return "HDm (DPost %s %s %s %s %s)" % (z(o["ds"]), vlib.coq_bool(k == "fsstart"), z(FSID[o.get("fs", "")]),
                                              vlib.coq_bool(k == "fsend"), vlib.coq_list([went(e) for e in o.get("es") or []]))
     if k == "addjob":
         d = o.get("delay", 0)
-        return "HJob (JAdd %s {| j_paused := %s; j_src := %s; j_sink := %s; j_delay := %s |})" % (
-            z(o["job"]), vlib.coq_bool(o["paused"]), z(o["src"]), z(o["sink"]), "Some %s" % z(d) if d > 0 else "None")
+        return "HJob (JAdd %s {| j_paused := %s; j_src := %s; j_sink := %s; j_delay := %s; j_trig := %s |})" % (
+            z(o["job"]), vlib.coq_bool(o["paused"]), z(o["src"]), z(o["sink"]), "Some %s" % z(d) if d > 0 else "None",
+            z(o.get("trig", -1)))
     if k == "pause":
         return "HJob (JPause %s true)" % z(o["job"])
     if k == "resume":
@@ -441,7 +470,7 @@ def term(c, o):
     ops = vlib.coq_list([op_term(x) for x in c["ops"]])
     cl = vlib.coq_list([vlib.coq_string(x) for x in CLIENTS])
     if o.get("outcome") != "ok" or o.get("final") is None or o.get("reffin") is None or \
-            any(s.get("err") for s in o["before"] + o["after"] + [o["final"], o["reffin"]]):
+            any(s.get("err") or s.get("hang") for s in o["before"] + o["after"] + [o["final"], o["reffin"]]):
         # the driver could not run the case: nothing agrees, the spec fails
         return ("{| c_ops := %s; c_clients := %s; o_res := []; o_pairs := []; o_full := [false]; o_final := []; o_refres := []; "
                 "o_reffinal := []; o_reffull := false |}" % (ops, cl))
@@ -478,9 +507,14 @@ def explain(b, a, seen):
     found = []
     for k in keys:
         if k == "acls":
+            # both recorded ACL findings leave NO access control at all after the restart; F14b: clients.json never
+            # written; F14a: the last write of acls.json before the restart came from a delete (explicit or by unregister)
+            writers = [y["op"] for y in seen if y["op"] in ("setacl", "delacl", "unreg")]
+            if a["acls"]:
+                return None
             if not any(y["op"] in ("reg", "unreg") for y in seen):
                 found.append("F14b")
-            elif any(y["op"] in ("delacl", "unreg") for y in seen):
+            elif writers and writers[-1] in ("delacl", "unreg"):
                 found.append("F14a")
             else:
                 return None
@@ -539,7 +573,7 @@ def size(c):
     return len(c["ops"]) * 10 + sum(len(x.get("es", [])) for x in c["ops"])
 
 
-GROUPS = {"create": "dm", "delete": "dm", "rename": "dm", "pubns": "dm", "w": "data", "fsstart": "data", "fsw": "data",
+GROUPS = {"pubnsm": "dm", "create": "dm", "delete": "dm", "rename": "dm", "pubns": "dm", "w": "data", "fsstart": "data", "fsw": "data",
           "fsend": "data", "addjob": "job", "pause": "job", "resume": "job", "deljob": "job", "run": "job",
           "reg": "sec", "unreg": "sec", "setacl": "sec", "delacl": "sec", "addprov": "prov", "delprov": "prov"}
 
